@@ -26,25 +26,28 @@ ENCS = ["utf-8", "latin-1", "utf-16"]
 XMLENC = ["utf-8", "iso-8859-1", "utf-16"]
 
 
-def _encode(fmt, sents, enc):
-    """source corpus bytes in format fmt"""
+def _encode(fmt, sents, enc, er=False):
+    """source corpus bytes in format fmt (er: PTB-style empty root label in the bracket formats)"""
     if fmt == "export":
         return enc_export([(sid, s) for sid, s in sents]).encode(ENCS[enc])
     if fmt == "brackets":
-        return enc_brackets(sents, fw=paren_names).encode(ENCS[enc])
+        return enc_brackets(sents, fw=paren_names, emptyroot=er).encode(ENCS[enc])
     if fmt == "discobrackets":
-        return enc_brackets(sents, disco=True, fw=paren_names).encode(ENCS[enc])
+        return enc_brackets(sents, disco=True, fw=paren_names, emptyroot=er).encode(ENCS[enc])
     return enc_tiger(sents, encoding=XMLENC[enc])
 
 
-def _after_read(spec, fmt):
+def _after_read(spec, fmt, er=False):
     """reference reader semantics (what the tool has in memory after reading fmt)"""
     if fmt in ("brackets", "discobrackets"):
         def pn(s):
             if s[0] == "T":
                 return ("T", paren_names(s[1]),) + s[2:]
             return s[:3] + (tuple(pn(c) for c in s[3]),)
-        return c01._expect(pn(spec), "brackets")
+        e = c01._expect(pn(spec), "brackets")
+        if er:
+            e = ("N", "VROOT", None, e[3])      # empty root label: VROOT without edge information
+        return e
     return c01._expect(spec, fmt)
 
 
@@ -138,7 +141,7 @@ def _written4(spec):
     return fill(e, True)
 
 
-def convert(m, n, sf, df, se, de, mode, wsel, back, four=False, **kw):
+def convert(m, n, sf, df, se, de, mode, wsel, back, four=False, er=False, gfo=False, **kw):
     """A -> B (and back to A) through transform.run; mode 0 plain file, 1 directory, 2 gzip source"""
     stubs.install()
     s1 = c01._first(m, n, kw, wsel)
@@ -148,7 +151,9 @@ def convert(m, n, sf, df, se, de, mode, wsel, back, four=False, **kw):
         return "~"       # not representable (excluded by the precondition)
     s2 = c01.S2 if (src_f != "brackets" and dst_f != "brackets") else c01.S2C
     sents = [(7, s1), (0, s2)]          # the second sentence carries the id 0
-    data = _encode(src_f, [(sid if src_f in ("export", "tigerxml") else None, s) for sid, s in sents], se)
+    er = er and src_f in ("brackets", "discobrackets")
+    gfo = gfo and dst_f in ("brackets", "discobrackets") and not four
+    data = _encode(src_f, [(sid if src_f in ("export", "tigerxml") else None, s) for sid, s in sents], se, er)
     sids_src = [7, 0] if src_f in ("export", "tigerxml") else [1, 2]
     if mode == 1:
         stubs.MemFS.dirs.add("corp")
@@ -163,10 +168,13 @@ def convert(m, n, sf, df, se, de, mode, wsel, back, four=False, **kw):
         src, dest, out = "a.in", "b.out", "b.out"
     four = four and dst_f == "export"
     try:
-        transform.run(_args(src, dest, src_f, dst_f, se, de, ["export_four"] if four else []))
+        transform.run(_args(src, dest, src_f, dst_f, se, de, ["export_four"] if four else (["gf"] if gfo else [])))
     except Exception as e:      # noqa
-        return "conversion %s -> %s failed: %s: %s" % (src_f, dst_f, type(e).__name__, e)
-    mem = [_after_read(s, src_f) for _, s in sents]
+        return "conversion %s -> %s%s failed: %s: %s" % (src_f, dst_f, " (gf)" if gfo else "", type(e).__name__, e)
+    mem = [_after_read(s, src_f, er) for _, s in sents]
+    if gfo:
+        # trees from the bracket readers carry no function labels ('--' or none): option gf adds nothing
+        return _check_file(out, dst_f, de, mem, sids_src, "%s -> %s (gf)" % (src_f, dst_f))
     r = _check_file(out, dst_f, de, mem, sids_src, "%s -> %s%s" % (src_f, dst_f, " (export_four)" if four else ""), four)
     if r:
         return r
@@ -274,10 +282,11 @@ def conds(tier):
         lpn = ", ".join("lp%d" % j for j in range(1, n + 1))
         cs.append(Cond("convert-m%d-n%d" % (m, n), "harness.c03:convert",
                        e1_params(m, n) + [P("sf", "int", 0, 4), P("df", "int", 0, 5), P("se", "int", 0, 3), P("de", "int", 0, 3),
-                                          P("mode", "int", 0, 3), P("wsel", "int", 0, 9), P("back", "bool"), P("four", "bool")],
+                                          P("mode", "int", 0, 3), P("wsel", "int", 0, 9), P("back", "bool"), P("four", "bool"), P("er", "bool"), P("gfo", "bool")],
                        fixed={"m": m, "n": n},
-                       pre=[e1_wf_expr(m, n), "_h.repr_ok(%d, %d, [%s], [%s], sf, df)" % (m, n, ipn, lpn), "not four or (df == 0 and mode == 0 and not back)"] +
-                       (["de == (se + mode) % 3 and wsel == (se + df + mode * 3) % 9 and back == (mode == 0 and not four)"] if (q or m * n > 4) else
+                       pre=[e1_wf_expr(m, n), "_h.repr_ok(%d, %d, [%s], [%s], sf, df)" % (m, n, ipn, lpn), "not four or (df == 0 and mode == 0 and not back)",
+                            "(not er and not gfo) or (er and gfo and sf in (1, 2) and df in (1, 2) and mode == 0 and not back and not four)"] +
+                       (["de == (se + mode) % 3 and wsel == (se + df + mode * 3) % 9 and back == (mode == 0 and not four and not er)"] if (q or m * n > 4) else
                         ["wsel == (se * 3 + de + mode) % 9"]),
                        shard=["sf", "df"] + ([] if (q or m * n > 4) else ["se", "mode"]) + (["lp1"] if m * n >= 9 else []),
                        timeout=600 if q else 3000, functions=FUNCS))
